@@ -28,6 +28,7 @@ struct EncOpts {
   int split_on_seams = -1;      // -1 unset, 0/1
   int compress_connectivity = -1;  // sequential mesh only; outside C01's quantifier (reported separately)
   bool track = true;
+  int history = 0;              // basic Encoder only: 1 = the same Encoder object first encodes a tiny mesh, 2 = a tiny point cloud
   // explicit quantization per attribute id (C12): bits>0 and range>0 => used instead of qbits
   struct Explicit { int bits = 0; std::vector<float> origin; float range = 0; };
   std::vector<Explicit> explicit_q;
@@ -38,7 +39,7 @@ struct EncOpts {
     for (int q : qbits) s += std::to_string(q) + ",";
     s += "] pred=[";
     for (int p : pred) s += std::to_string(p) + ",";
-    return s + "]";
+    return s + "]" + (history ? " history=" + std::to_string(history) : std::string());
   }
 };
 
@@ -174,6 +175,21 @@ inline EncResult Encode(const Geo &g, const draco::PointCloud &pc, const draco::
   } else {
     draco::Encoder e;
     ConfigureBasic(&e, g, o, &res.pred_rejected);
+    if (o.history) {
+      // An Encoder object may serve several geometries: an earlier encode (result ignored) must leave nothing behind.
+      draco::Mesh hm;
+      draco::PointCloud hp;
+      draco::PointCloud *h = o.history == 1 ? &hm : &hp;
+      h->set_num_points(4);
+      draco::GeometryAttribute ga;
+      ga.Init(draco::GeometryAttribute::POSITION, nullptr, 3, draco::DT_FLOAT32, false, 12, 0);
+      const int aid = h->AddAttribute(ga, true, 4);
+      const float hv[4][3] = {{0, 0, 0}, {1, 0, 0}, {0, 1, 0}, {1, 1, 0.5f}};
+      for (int i = 0; i < 4; ++i) h->attribute(aid)->SetAttributeValue(draco::AttributeValueIndex(i), hv[i]);
+      if (o.history == 1) { draco::Mesh::Face f0, f1; f0[0] = draco::PointIndex(0); f0[1] = draco::PointIndex(1); f0[2] = draco::PointIndex(2); f1[0] = draco::PointIndex(2); f1[1] = draco::PointIndex(1); f1[2] = draco::PointIndex(3); hm.AddFace(f0); hm.AddFace(f1); }
+      draco::EncoderBuffer junk;
+      if (o.history == 1) (void)e.EncodeMeshToBuffer(hm, &junk); else (void)e.EncodePointCloudToBuffer(hp, &junk);
+    }
     res.status = mesh ? e.EncodeMeshToBuffer(*mesh, &eb) : e.EncodePointCloudToBuffer(pc, &eb);
     res.num_points = e.num_encoded_points();
     res.num_faces = e.num_encoded_faces();
